@@ -40,6 +40,9 @@ import r47_reshape
 import r48_boundary
 import r49_accumulator
 import r50_guessspec
+import r51_geometry
+import r52_weightconst
+import r53_excess
 import r06_validate
 import r07_cache
 import r08_toporder
@@ -224,6 +227,18 @@ def r49(ctx, prop):
 
 def r50(ctx, prop):
     return [r50_guessspec.run(ctx.F())]
+
+
+def r51(ctx, prop):
+    return r51_geometry.run(ctx.F())
+
+
+def r52(ctx, prop):
+    return r52_weightconst.run(ctx.F())
+
+
+def r53(ctx, prop):
+    return r53_excess.run(ctx.F())
 
 
 def r43(ctx, prop):
@@ -430,6 +445,7 @@ R10F_SCOPES = {
             "phase_equilibria::phase_envelope", "phase_equilibria::PhaseEquilibrium"),
     "C07": ("phase_equilibria::stability_analysis",),
     "C20": ("estimator::", "state::residual_properties"),
+    "C16": ("feos_dft::adsorption", "feos_dft::solvation", "feos_dft::profile", "feos_dft::interface"),
 }
 
 
@@ -468,6 +484,7 @@ PROPERTY_RULES = {
     "C10": [r10_selector, r8, r1_idealgas, r3, r19, r25, r29, r10_selconst, r1_guard_idealgas, r44],
     "C14": [r14, r13, r10_identifier, r21, r27, r28, r38, r40, r47, r20b, r49],
     "C15": [r15],
+    "C16": [r51, r52, r53, r48, r10_selconst],
     "C20": [r10_transport, r21, r25, r24, r34, r10_selconst, r41, r47],
     "C01": [r1_all, r2, r7, r8, r4, r25, r24, r26, r28, r29, r39, r40, r44, r20b],
     "C13": [r1_guard, r8, r21, r32, r36, r43],
